@@ -27,6 +27,7 @@ import (
 	"sort"
 	"strings"
 	"sync"
+	"sync/atomic"
 	"time"
 )
 
@@ -130,6 +131,13 @@ type Ctx struct {
 	Corpus  string // /verif/corpus/<prop>
 	Scratch string // per-run scratch directory (removed at exit)
 
+	// crash storm guard: when the real code hangs or dies on very many cases (typically a change that makes a
+	// whole class of inputs loop), waiting out every watchdog would take hours; after CrashLimit such outcomes
+	// the remaining generated cases are dropped and the run reports what it has.
+	crashes    int64
+	CrashLimit int64
+	dropped    int64
+
 	mu      sync.Mutex
 	queue   chan Case
 	wg      sync.WaitGroup
@@ -163,6 +171,10 @@ func (c *Ctx) Note(format string, a ...any) {
 func (c *Ctx) Add(check string, args any) {
 	if _, ok := checks[check]; !ok {
 		panic("unknown check " + check)
+	}
+	if c.CrashLimit > 0 && atomic.LoadInt64(&c.crashes) >= c.CrashLimit {
+		atomic.AddInt64(&c.dropped, 1)
+		return
 	}
 	raw, err := json.Marshal(args)
 	if err != nil {
@@ -579,7 +591,11 @@ func (c *Ctx) judge(cs Case, real, drv json.RawMessage) {
 	r.Cases++
 	r.ByCheck[cs.Check]++
 	if real != nil {
-		r.RealClasses[cs.Check+":"+classOf(real)]++
+		cl := classOf(real)
+		r.RealClasses[cs.Check+":"+cl]++
+		if cl == "hang" || cl == "fatal" {
+			atomic.AddInt64(&c.crashes, 1)
+		}
 	}
 	h := fnv(append([]byte(cs.Check), cs.Args...))
 	if _, seen := r.distinct[h]; !seen {
@@ -718,7 +734,7 @@ func Run(o Options) int {
 		RealClasses: map[string]int{}, FailKeys: map[string]int{}, distinct: map[uint64]struct{}{},
 		Disagreements: []Finding{}, Failures: []Finding{}, Samples: []Case{}, Notes: []string{}}
 	ctx := &Ctx{Prop: o.Prop, Tier: o.Tier, Seed: o.Seed, Rng: rand.New(rand.NewSource(o.Seed)), Res: res, Lanes: o.Lanes,
-		Self: self, Driver: o.Driver, RepoDir: o.RepoDir, Corpus: o.Corpus, Scratch: scratch, maxKeep: 20}
+		Self: self, Driver: o.Driver, RepoDir: o.RepoDir, Corpus: o.Corpus, Scratch: scratch, maxKeep: 20, CrashLimit: 60}
 	t0 := time.Now()
 	if o.Replay != "" {
 		b, err := os.ReadFile(o.Replay)
@@ -740,6 +756,9 @@ func Run(o Options) int {
 		ctx.Wait()
 		f(ctx)
 		ctx.Wait()
+	}
+	if d := atomic.LoadInt64(&ctx.dropped); d > 0 {
+		res.Notes = append(res.Notes, fmt.Sprintf("crash storm: %d hang/fatal outcomes of the real code; %d further generated cases were dropped", atomic.LoadInt64(&ctx.crashes), d))
 	}
 	res.Distinct = len(res.distinct)
 	res.WallS = time.Since(t0).Seconds()
